@@ -412,12 +412,92 @@ func genND(c *core.Ctx) [][]byte {
 		}
 		out = append(out, fr)
 	}
+	// size sweep: every ICMPv6 type the handler looks at, filled up to the Ethernet MTU with well-formed options
+	// (the handler logs options and payloads; the fastlog line is 2048 bytes, a frame up to 1514)
+	sizes := []int{96, 200, 400, 560, 600, 640, 680, 720, 800, 1000, 1232, 1400, 1440, 1452}
+	if c.Scale(0, 1) == 1 {
+		for k := 64; k <= 1452; k += 24 {
+			sizes = append(sizes, k)
+		}
+	}
+	fill := func(body []byte, total int, kind int) []byte {
+		for len(body)+8 <= total {
+			var o ndpgen.Opt
+			room := (total - len(body)) / 8
+			switch kind {
+			case 0: // prefix information options (32 bytes each)
+				o = ndpgen.Prefix(64, true, true, 3600, 1800, ndpgen.RandIP6(r))
+			case 1: // one RDNSS option as long as fits, then shorter ones
+				n := (room - 1) / 2
+				if n > 127 {
+					n = 127
+				}
+				if n < 1 {
+					o = ndpgen.Unknown(byte(200+r.Intn(40)), 1, r)
+					break
+				}
+				srv := make([][16]byte, n)
+				for i := range srv {
+					srv[i] = ndpgen.RandIP6(r)
+				}
+				o = ndpgen.RDNSS(600, srv...)
+			case 2: // search lists with long names
+				var names [][]string
+				for i := 0; i < 1+r.Intn(3); i++ {
+					names = append(names, []string{strings.Repeat("a", 1+r.Intn(60)), strings.Repeat("b", 1+r.Intn(60)), "example"})
+				}
+				o = ndpgen.DNSSL(600, names...)
+			default: // unknown option types of every size
+				u := 1 + r.Intn(31)
+				if u > room {
+					u = room
+				}
+				o = ndpgen.Unknown(byte(60+r.Intn(150)), u, r)
+			}
+			b := o.Bytes()
+			if len(body)+len(b) > total {
+				b = ndpgen.Unknown(99, room, r).Bytes()
+				if room > 255 {
+					b = ndpgen.Unknown(99, 255, r).Bytes()
+				}
+			}
+			body = append(body, b...)
+		}
+		return body
+	}
+	for _, t := range []int{134, 133, 135, 136, 137, 128, 129, 1, 2, 3, 4, 143} {
+		for _, k := range sizes {
+			tg := targets[1+r.Intn(len(targets)-1)].As16()
+			var body []byte
+			switch t {
+			case 134:
+				body = ndpgen.RA(64, byte(r.Intn(256))&0xf8, 1800, 0, 0, nil)
+			case 133:
+				body = []byte{133, 0, 0, 0, 0, 0, 0, 0}
+			case 135:
+				body = append([]byte{135, 0, 0, 0, 0, 0, 0, 0}, tg[:]...)
+			case 136:
+				body = append([]byte{136, 0, 0, 0, 0x60, 0, 0, 0}, tg[:]...)
+			case 137:
+				body = append(append([]byte{137, 0, 0, 0, 0, 0, 0, 0}, tg[:]...), tg[:]...)
+			default:
+				body = append([]byte{byte(t), 0, 0, 0, 0, 1, 0, 1}, c.RandBytes(k)...)
+				body = body[:k]
+			}
+			if t >= 133 && t <= 137 {
+				body = fill(body, k, r.Intn(4))
+			}
+			src, dst := peerLLA, dsts[1]
+			fr := frame6(peer, []byte{0x33, 0x33, 0, 0, 0, 1}, src, dst, 255, body)
+			out = append(out, fr)
+		}
+	}
 	return out
 }
 
 func Gen(c *core.Ctx) {
 	r := c.Rnd
-	rule := "hnd.arp / hnd.icmp6: the raw frames of the arp.frame and nd.frame generators (well-formed requests / probes / replies / announcements / router advertisements with option lists, corrupted header fields, truncation at every length, tags, other EtherTypes, random bytes) plus neighbour solicitations for global / link-local / mapped / multicast targets, neighbour advertisements with every flag combination, the other ICMPv6 types and short bodies; one to three frames (and Close for ICMPv6) per handler; the environment is a working (mostly), failing or nil connection, a 6-byte or missing interface MAC, a present or absent link-local address; hnd.icmp4: ICMPv4 frames of every type incl. destination-unreachable with embedded headers, and every type with message sizes from 8 bytes to the Ethernet MTU (28 sizes quick, +114 thorough).  non-trivial = at least one frame long enough to reach the handler"
+	rule := "hnd.arp / hnd.icmp6: the raw frames of the arp.frame and nd.frame generators (well-formed requests / probes / replies / announcements / router advertisements with option lists, corrupted header fields, truncation at every length, tags, other EtherTypes, random bytes) plus neighbour solicitations for global / link-local / mapped / multicast targets, neighbour advertisements with every flag combination, the other ICMPv6 types and short bodies; one to three frames (and Close for ICMPv6) per handler; the environment is a working (mostly), failing or nil connection, a 6-byte or missing interface MAC, a present or absent link-local address; hnd.icmp4: ICMPv4 frames of every type incl. destination-unreachable with embedded headers, and every type with message sizes from 8 bytes to the Ethernet MTU (28 sizes quick, +114 thorough); ICMPv6 likewise: RA / RS / NS / NA / redirect filled with well-formed option lists (prefix, RDNSS, DNSSL, unknown) and echo / error messages with bodies up to the MTU (14 sizes quick, +58 thorough).  non-trivial = at least one frame long enough to reach the handler"
 	for _, l := range c.CorpusLines() {
 		if strings.HasPrefix(l, "hnd.") {
 			add(c, "hnd-corpus", l)
